@@ -758,6 +758,8 @@ class Fxp():
         
         # scaling conversion
         self.scaled = False
+        if self.scale is not None and self.bias is not None and raw:
+            self.scaled = bool(self.bias != 0 or self.scale != 1)   # a raw value is stored as it is; the object keeps its scaling
         if self.scale is not None and self.bias is not None and not raw:
             if self.bias != 0:
                 val = val - self.bias
